@@ -209,6 +209,11 @@ fn hostile_doc(picks: &[HPick], rooted: bool) -> String {
     }
 }
 
+/// Rooted svgdx documents with hostile strings at every value position (shared with C05/C06).
+pub fn hostile_rooted_doc() -> BoxedStrategy<String> {
+    vec(hpick(), 1..6).prop_map(|picks| hostile_doc(&picks, true)).boxed()
+}
+
 fn fam_hostile(_t: Tier) -> BoxedStrategy<Case> {
     (vec(hpick(), 1..6), gen::cfg_hostile(), prop::bool::weighted(0.8))
         .prop_map(|(picks, cfg, rooted)| Case { input: hostile_doc(&picks, rooted), cfg, rooted: Some(rooted), namespaced: false, fam: "hostile".into() })
